@@ -910,4 +910,173 @@ theorem collectSs_spec : (ss : List Stmt) → FragSs ss = true → SpecOkSs ss =
         (collectS_spec s hf.1 hs.1 a).trans (collectSs_spec rest hf.2 hs.2 _)
 end
 
+
+/-! ### what the analysis records for a function definition -/
+
+theorem top_addBound (st : St) (q : QN) (h : st.stack ≠ []) : (st.addBound q).top.params = st.top.params := by
+  simp [St.addBound, St.modTop_top _ _ h]
+
+theorem top_addParam (st : St) (q : QN) (o : Nat) (h : st.stack ≠ []) :
+    (st.addParam q o).top.params = (q, o) :: st.top.params := by
+  simp [St.addParam, St.modTop_top _ _ h]
+
+theorem visitArgs_params (as : List Expr) (ha : as.all isPlainArg = true) {st : St} (h : Plain st) :
+    ∀ q, q ∈ (visitEs as st).top.paramNames ↔ q ∈ argNames as ∨ q ∈ st.top.paramNames := by
+  induction as generalizing st with
+  | nil => simp [visitEs, argNames]
+  | cons a rest ih =>
+    simp only [List.all_cons, Bool.and_eq_true] at ha
+    match a, ha.1 with
+    | .arg _ n [], _ =>
+      intro q
+      simp only [visitEs, visitE]
+      have h1 := Adds.addBound h (.sym n)
+      have h2 := h1.trans (Adds.addParam h1.plain (.sym n) st.ownerId)
+      rw [ih ha.2 h2.plain q]
+      simp only [Scope.paramNames, top_addParam _ _ _ h1.ne, top_addBound _ _ h.ne, argNames, List.filterMap_cons,
+        List.map_cons, List.mem_cons]
+      grind
+
+theorem visitParams_params {po ar va ko kw : List Expr} (hp : PlainParams po ar va ko kw) {st : St} (h : Plain st) :
+    ∀ q, q ∈ (visitParams po ar va ko kw st).top.paramNames ↔ q ∈ paramNames po ar va ko kw ∨ q ∈ st.top.paramNames := by
+  intro q
+  have P1 := visitArgs_adds po hp.po h
+  have P2 := visitArgs_adds ar hp.ar P1.plain
+  have P3 := visitArgs_adds va hp.va (P1.trans P2).plain
+  have P4 := visitArgs_adds ko hp.ko ((P1.trans P2).trans P3).plain
+  unfold visitParams
+  rw [visitArgs_params kw hp.kw (((P1.trans P2).trans P3).trans P4).plain, visitArgs_params ko hp.ko ((P1.trans P2).trans P3).plain,
+      visitArgs_params va hp.va (P1.trans P2).plain, visitArgs_params ar hp.ar P1.plain, visitArgs_params po hp.po h]
+  simp only [paramNames, List.mem_append]
+  grind
+
+/-- What `visit_FunctionDef` leaves on the annotations of a (non-async) function definition of the fragment:
+    the function's ARGS_AND_BODY scope is the last annotation made, its sets are the parameters plus the
+    effect of the body; the `arguments` node carries a scope whose `params` are the parameters. -/
+theorem functionDef_recorded (i : Nat) (name : String) (ai : Nat) (po ar va ko kd kw df : List Expr) (body : List Stmt)
+    (decos returns : List Expr) (st : St) (fns : List FnCtx) (p : PlainS st fns)
+    (hf : FragS (.functionDef i name (.arguments ai po ar va ko kd kw df) body decos returns false) = true) :
+    ∃ cI ca rest,
+      (visitS (.functionDef i name (.arguments ai po ar va ko kd kw df) body decos returns false) st).annos
+        = (i, .argsAndBodyScope, cI) :: rest ∧
+      (ai, AnnoKey.scope, ca) ∈ rest ∧
+      Popped cI true ((({ bound := paramNames po ar va ko kw } : Eff).exported false) ++
+                      ((effSs (.fn i name :: fns) body).exported false)) ∧
+      (∀ q, q ∈ ca.paramNames ↔ q ∈ paramNames po ar va ko kw) := by
+  simp only [FragS, Bool.and_eq_true, Bool.not_eq_true'] at hf
+  obtain ⟨⟨⟨⟨_, ⟨⟨⟨⟨⟨⟨hpo, har⟩, hva⟩, hko⟩, hkw⟩, hkd⟩, hdf⟩⟩, hdec⟩, hret⟩, hbody⟩ := hf
+  have hpp : PlainParams po ar va ko kw := ⟨hpo, har, hva, hko, hkw⟩
+  simp only [visitS, Bool.false_eq_true, ↓reduceIte]
+  rw [show ∀ s : St, (visitEs kw (visitEs ko (visitEs va (visitEs ar (visitEs po (s.setAnnoOnly true)))))).setAnnoOnly false
+        = (visitParams po ar va ko kw (s.setAnnoOnly true)).setAnnoOnly false from fun _ => rfl,
+      show ∀ s : St, visitEs kw (visitEs ko (visitEs va (visitEs ar (visitEs po s)))) = visitParams po ar va ko kw s
+        from fun _ => rfl]
+  rw [show ∀ x : St, x.popFn.annos = x.annos from fun _ => rfl]
+  have p0 := p.pushFn (.fn i name)
+  generalize st.pushFn (.fn i name) = s0 at p0 ⊢
+  have p1 := p0.enter false none
+  have A1 := visitEs_adds decos _ p1.plain hdec _ false false p1.ctx
+  have A2 := A1.trans (returnsStep_adds returns (A1.plainS p1)
+    (fun s hs hc => visitEs_adds returns s hs hret _ false true hc))
+  have A3 := A2.trans (visitEs_adds kd _ A2.plain hkd _ false false (A2.inCtx p1.ctx))
+  have A4 := A3.trans (visitEs_adds df _ A3.plain hdf _ false false (A3.inCtx p1.ctx))
+  have A5 := A4.trans (visitParams_adds hpp A4.plain)
+  rw [visitParams_annoOnly hpp A4.plain]
+  have A6 := A5.trans (Adds.addModified A5.plain (.sym name))
+  have A7 := A6.trans (Adds.addBound A6.plain (.sym name))
+  have S1 := Adds.scopedAdds p0.plain false none A7 [(i, .scope)]
+  have q := S1.plainS p0
+  have qI := q.enter true (some name)
+  have hfresh := St.enter_plain qI.plain false (some name)
+  have B1 := visitParams_adds hpp hfresh
+  have SBa := scoped_block qI.plain false (some name) B1 [(ai, .scope)]
+  have qB := SBa.adds.plainS qI
+  have B2 := visitSs_adds body _ _ (qB.enter false (some name)) hbody
+  have SBb := scoped_block qB.plain false (some name) B2 [(i, .bodyScope)]
+  have SBc := scoped_block q.plain true (some name) (SBa.adds.trans SBb.adds) [(i, .argsAndBodyScope)]
+  obtain ⟨ca, -, hxa, hca⟩ := SBa.popped
+  obtain ⟨cb, -, hxb, -⟩ := SBb.popped
+  obtain ⟨cI, hcI, hxI, -⟩ := SBc.popped
+  obtain ⟨nb, eb⟩ := B2.ext
+  refine ⟨cI, ca, _, by rw [hxI]; rfl, ?_, hcI, ?_⟩
+  · rw [hxb]
+    apply List.mem_append_right
+    rw [eb]
+    apply List.mem_append_right
+    rw [St.enter_annos, hxa]
+    simp
+  · intro x
+    rw [← hca, visitParams_params hpp hfresh x]
+    have : ((s0.enter false).exitWith [(i, .scope)] |>.enter true (some name) |>.enter false (some name)).top.paramNames = [] := rfl
+    simp [Scope.paramNames, St.top, St.enter]
+
+
+/-! ### what the specification says about the top-level function -/
+
+theorem blockOf_functionDef (i : Nat) (name : String) (ai : Nat) (po ar va ko kd kw df : List Expr) (body : List Stmt)
+    (decos returns : List Expr) (isAsync : Bool) :
+    blockOf (.functionDef i name (.arguments ai po ar va ko kd kw df) body decos returns isAsync) =
+      some ((collectSs body { params := (po ++ ar ++ ko ++ va ++ kw).filterMap paramName }).toBlock i .function name) := by
+  simp [blockOf, collectS, Acc.child, List.getLast?_concat]
+
+/-- The symbol table of a block analysed at the top level (nothing visible from outside). -/
+theorem analyzeBlock_head (id : Nat) (kind : BlockKind) (name : String)
+    (params binds globals nonlocals uses walrus : List String) (children : List Block) :
+    ∃ info rest, (analyzeBlock (.mk id kind name params binds globals nonlocals uses walrus children) 0 [] []).1 = info :: rest ∧
+      info.id = id ∧
+      (∀ x, x ∈ info.params ↔ x ∈ params) ∧
+      (∀ x, x ∈ info.locals ↔ (x ∈ params ∨ x ∈ binds) ∧ x ∉ globals ∧ x ∉ walrus ∧ x ∉ nonlocals) ∧
+      (∀ x, x ∈ info.declaredGlobals ↔ x ∈ globals) ∧
+      (∀ x, x ∈ info.declaredNonlocals ↔ x ∉ globals ∧ (x ∈ nonlocals ∨ x ∈ walrus)) := by
+  simp only [analyzeBlock]
+  refine ⟨_, _, rfl, rfl, ?_, ?_, ?_, ?_⟩
+  · intro x
+    simp only [BlockInfo.params, BlockInfo.names, List.filter_append, List.map_append, List.mem_append, List.mem_map,
+      List.mem_filter, ownNames, dedup, List.mem_eraseDups, Block.params, Block.binds, Block.globals, Block.nonlocals,
+      Block.uses, Block.walrus]
+    constructor
+    · rintro (⟨sy, ⟨⟨n, hn, rfl⟩, hp⟩, rfl⟩ | ⟨sy, ⟨⟨n, hn, rfl⟩, hp⟩, rfl⟩)
+      · simpa using hp
+      · simp at hp
+    · intro hx
+      exact Or.inl ⟨_, ⟨⟨x, by simp [hx], rfl⟩, by simpa using hx⟩, rfl⟩
+  · intro x
+    simp only [BlockInfo.locals, BlockInfo.names, List.filter_append, List.map_append, List.mem_append, List.mem_map,
+      List.mem_filter, ownNames, dedup, List.mem_eraseDups, Block.params, Block.binds, Block.globals, Block.nonlocals,
+      Block.uses, Block.walrus, scopeOf]
+    constructor
+    · rintro (⟨sy, ⟨⟨n, hn, rfl⟩, hp⟩, rfl⟩ | ⟨sy, ⟨⟨n, hn, rfl⟩, hp⟩, rfl⟩)
+      · simp only at hp ⊢
+        by_cases h1 : n ∈ globals <;> by_cases h2 : n ∈ walrus <;> by_cases h3 : n ∈ nonlocals <;>
+          by_cases h4 : n ∈ params <;> by_cases h5 : n ∈ binds <;> simp_all
+      · simp at hp
+    · rintro ⟨hpb, hg, hw, hn⟩
+      refine Or.inl ⟨_, ⟨⟨x, by rcases hpb with h | h <;> simp [h], rfl⟩, ?_⟩, rfl⟩
+      rcases hpb with h | h <;> simp [hg, hw, hn, h]
+  · intro x
+    simp only [BlockInfo.declaredGlobals, BlockInfo.names, List.filter_append, List.map_append, List.mem_append, List.mem_map,
+      List.mem_filter, ownNames, dedup, List.mem_eraseDups, Block.params, Block.binds, Block.globals, Block.nonlocals,
+      Block.uses, Block.walrus, scopeOf]
+    constructor
+    · rintro (⟨sy, ⟨⟨n, hn, rfl⟩, hp⟩, rfl⟩ | ⟨sy, ⟨⟨n, hn, rfl⟩, hp⟩, rfl⟩)
+      · simp only at hp ⊢
+        by_cases h1 : n ∈ globals <;> by_cases h2 : n ∈ walrus <;> by_cases h3 : n ∈ nonlocals <;>
+          by_cases h4 : n ∈ params <;> by_cases h5 : n ∈ binds <;> simp_all
+      · simp at hp
+    · intro hx
+      exact Or.inl ⟨_, ⟨⟨x, by simp [hx], rfl⟩, by simp [hx]⟩, rfl⟩
+  · intro x
+    simp only [BlockInfo.declaredNonlocals, BlockInfo.names, List.filter_append, List.map_append, List.mem_append, List.mem_map,
+      List.mem_filter, ownNames, dedup, List.mem_eraseDups, Block.params, Block.binds, Block.globals, Block.nonlocals,
+      Block.uses, Block.walrus, scopeOf]
+    constructor
+    · rintro (⟨sy, ⟨⟨n, hn, rfl⟩, hp⟩, rfl⟩ | ⟨sy, ⟨⟨n, hn, rfl⟩, hp⟩, rfl⟩)
+      · simp only at hp ⊢
+        by_cases h1 : n ∈ globals <;> by_cases h2 : n ∈ walrus <;> by_cases h3 : n ∈ nonlocals <;>
+          by_cases h4 : n ∈ params <;> by_cases h5 : n ∈ binds <;> simp_all
+      · simp at hp
+    · rintro ⟨hg, hnw⟩
+      refine Or.inl ⟨_, ⟨⟨x, by rcases hnw with h | h <;> simp [h], rfl⟩, ?_⟩, rfl⟩
+      rcases hnw with h | h <;> by_cases h2 : x ∈ walrus <;> by_cases h3 : x ∈ nonlocals <;> simp_all
+
 end Malt.Analysis
